@@ -36,7 +36,14 @@ env = dict(os.environ, OMP_NUM_THREADS='2', PYTHONDONTWRITEBYTECODE='1', MPLBACK
 env.pop('PYTHONPATH', None)
 meta = {'property': a.prop, 'k': a.k, 'repo_head': head, 'when': time.strftime('%Y-%m-%d %H:%M')}
 try:
-    shutil.copy(demo, os.path.join(wt, 'demo.py'))
+    # demonstrations must import pymoto from the directory they are run in: a hard-coded path to the seeding worktree is
+    # replaced by the script's own directory
+    txt = open(demo).read()
+    if src in txt:
+        txt = 'import os as _os\n' + txt.replace(f"'{src}'", "_os.path.dirname(_os.path.abspath(__file__))").replace(
+            f'"{src}"', "_os.path.dirname(_os.path.abspath(__file__))")
+    demo_txt = txt
+    open(os.path.join(wt, 'demo.py'), 'w').write(txt)
 
     def run_demo():
         r = subprocess.run(['/venv/bin/python', 'demo.py'], cwd=wt, env=env, capture_output=True, text=True, timeout=1800)
@@ -77,7 +84,7 @@ try:
     out = f'/verif/seeded/{a.prop}-{a.k}'
     os.makedirs(out, exist_ok=True)
     shutil.copy(patch, os.path.join(out, 'patch.diff'))
-    shutil.copy(demo, os.path.join(out, 'demo.py'))
+    open(os.path.join(out, 'demo.py'), 'w').write(demo_txt)
     prev = {}
     mp = os.path.join(out, 'meta.json')
     if os.path.exists(mp):
